@@ -2,7 +2,7 @@
    Property theorems only.  Ref = Lang/Ref.v (transcription of the specification), VM = Back/VmExec.v fetching
    bytes produced by Back/VmCompile.v; both engine models are tied to the code by tools/props/c02.py. *)
 From Coq Require Import ZArith NArith List Bool.
-From NV Require Import Lang.Ast Lang.Ref Back.VmCompile Back.VmExec Back.OpTable gen.IsaTable.
+From NV Require Import Lang.Ast Lang.Ref Lang.RefArrays Back.VmCompile Back.VmExec Back.OpTable gen.IsaTable.
 Import ListNotations.
 Local Open Scope Z_scope.
 
@@ -90,9 +90,12 @@ Theorem C02_vm_fetch_at : forall M fn fe cf pos i c,
 Proof. exact fetch_at. Qed.
 Print Assumptions C02_vm_fetch_at.
 
-(* stage A: every instruction the statement compiler emits has its operands in range (so it survives encode/decode) *)
+(* stage A: every instruction the statement compiler emits has its operands in range (so it survives encode/decode);
+   lits_small: an array literal has fewer than 2^16 elements -- the element count is a u16 operand of ARR_LITERAL
+   (the real compiler truncates it: finding lang:array-literal-count-u16) *)
 Theorem C02_vm_compile_wf : forall G s pos L ce p c ce' p',
-  compile_stmt G pos L ce s p = Some (c, ce', p') -> lims G (length ce') (length p') -> Forall (wf_instr table) c.
+  compile_stmt G pos L ce s p = Some (c, ce', p') -> lims G (length ce') (length p') -> lits_small s ->
+  Forall (wf_instr table) c.
 Proof. exact compile_stmt_wf. Qed.
 Print Assumptions C02_vm_compile_wf.
 
@@ -153,3 +156,47 @@ Example C02_vm_fall_through_returns_void : exists M, compile_program ex_fall = S
   run_vm 500%nat M = VDone [55; 10]%N 0.
 Proof. exact fall_through_returns_void. Qed.
 Print Assumptions C02_vm_fall_through_returns_void.
+
+(* ---- arrays (immutable array<int>: literals, at, array_length) ----
+   An index outside 0 <= i < length is a fault of the reference semantics (FOob); the VM stops there with its bounds
+   error and exactly the output produced so far -- the access never yields a value the program keeps computing with. *)
+Theorem C02_vm_correct_oob : forall pr M fuel out,
+  compile_program pr = Some M -> small_program pr -> fuel_small fuel ->
+  run_ref fuel pr = Faulted FOob out ->
+  (exists fuel', run_vm fuel' M = VError EOob out) \/ (exists fuel' o, run_vm fuel' M = VError ECallDepth o).
+Proof. exact vm_correct_oob. Qed.
+Print Assumptions C02_vm_correct_oob.
+
+Theorem C02_vm_correct_oob_depth_ok : forall pr M fuel out,
+  compile_program pr = Some M -> small_program pr -> fuel_small fuel -> depth_ok M ->
+  run_ref fuel pr = Faulted FOob out -> exists fuel', run_vm fuel' M = VError EOob out.
+Proof. exact vm_correct_oob_depth_ok. Qed.
+Print Assumptions C02_vm_correct_oob_depth_ok.
+
+(* the reference semantics of at, stated on its own: in range the element, out of range the fault -- for every array,
+   every index in Z (negative, = length, beyond 2^32) *)
+Theorem C02_at_in_range_or_fault : forall fns fuel genv en a i out l k out1 out2,
+  eval_expr fns fuel genv en a out = Ok (VArr l) out1 ->
+  eval_expr fns fuel genv en i out1 = Ok (VInt k) out2 ->
+  eval_expr fns (S fuel) genv en (EAt a i) out =
+  if ((0 <=? k) && (k <? Z.of_nat (length l)))%bool then Ok (VInt (nth (Z.to_nat k) l 0)) out2 else Fault FOob out2.
+Proof. exact at_in_range_or_fault. Qed.
+Print Assumptions C02_at_in_range_or_fault.
+
+(* hypotheses satisfiable on array programs: a global array, array parameter / result, whole-array assignment, the empty
+   literal, array_length, at under a loop index, printing an array ... *)
+Example C02_vm_correct_arrays_example : exists M, compile_program ex_arr = Some M /\
+  run_ref 200%nat ex_arr = Done [50; 10; 91; 53; 44; 32; 54; 44; 32; 55; 93; 10; 53; 10; 54; 10; 55; 10]%N 11 /\
+  ((exists fuel', run_vm fuel' M = VDone [50; 10; 91; 53; 44; 32; 54; 44; 32; 55; 93; 10; 53; 10; 54; 10; 55; 10]%N 11) \/
+   (exists fuel' o, run_vm fuel' M = VError ECallDepth o)) /\
+  run_vm 5000%nat M = VDone [50; 10; 91; 53; 44; 32; 54; 44; 32; 55; 93; 10; 53; 10; 54; 10; 55; 10]%N 11.
+Proof. exact ex_arr_correct. Qed.
+Print Assumptions C02_vm_correct_arrays_example.
+
+(* ... and (at v1 3) on a three-element array after "1" was printed *)
+Example C02_vm_correct_oob_example : exists M, compile_program ex_oob = Some M /\
+  run_ref 100%nat ex_oob = Faulted FOob [49; 10]%N /\
+  ((exists fuel', run_vm fuel' M = VError EOob [49; 10]%N) \/ (exists fuel' o, run_vm fuel' M = VError ECallDepth o)) /\
+  run_vm 500%nat M = VError EOob [49; 10]%N.
+Proof. exact ex_oob_traps. Qed.
+Print Assumptions C02_vm_correct_oob_example.
